@@ -1,14 +1,48 @@
 import OV.Model.C12Call
-/-! Positional arguments become inputs as an order-preserving prefix. -/
+/-! Exact characterisation of the inputs `separate` returns. -/
 namespace OV.Call
 
 def Param.isInput : Param → Bool
   | .input .. => true
   | .attr .. => false
 
-theorem sepFrom_attrs : ∀ (attrs : List Param) (i n : Nat) (acc r : Sep),
-    (∀ p ∈ attrs, p.isInput = false) → sepFrom attrs i n acc = .ok r → r.inputs = acc.inputs
-  | [], _, _, acc, r, _, h => by simp only [sepFrom, Except.ok.injEq] at h; rw [← h]
+def Param.isPlainInput : Param → Bool
+  | .input false _ => true
+  | _ => false
+
+def isNoneB : Option Src → Bool
+  | none => true
+  | some _ => false
+
+/-- Number of `None` placeholders at the end. -/
+def trail (l : List (Option Src)) : Nat := (l.reverse.takeWhile isNoneB).length
+
+/-- `del onnx_inputs[-trailing_placeholders:]`. -/
+def trimNone (l : List (Option Src)) : List (Option Src) := l.take (l.length - trail l)
+
+/-- What stands at input position `j` before trimming: the `j`-th positional argument, else the keyword argument
+for parameter `j`, else the placeholder. -/
+def slot (n : Nat) (kws : List Nat) (j : Nat) : Option Src :=
+  if j < n then some (.pos j) else if kws.contains j then some (.kw j) else none
+
+theorem trail_append_some (l : List (Option Src)) (x : Src) : trail (l ++ [some x]) = 0 := by
+  simp [trail, List.reverse_append, List.takeWhile, isNoneB]
+
+theorem trail_append_none (l : List (Option Src)) : trail (l ++ [none]) = trail l + 1 := by
+  simp [trail, List.reverse_append, List.takeWhile, isNoneB]
+
+theorem trail_append_somes (l : List (Option Src)) (f : Nat → Src) (xs : List Nat) (hx : xs ≠ []) :
+    trail (l ++ xs.map (fun k => some (f k))) = 0 := by
+  unfold trail
+  rw [List.reverse_append, ← List.map_reverse]
+  cases hr : xs.reverse with
+  | nil => exact absurd (List.reverse_eq_nil_iff.mp hr) hx
+  | cons y ys => simp [List.takeWhile, isNoneB]
+
+theorem sepFrom_attrs (kws : List Nat) : ∀ (attrs : List Param) (i n : Nat) (acc r : Sep),
+    (∀ p ∈ attrs, p.isInput = false) → sepFrom kws attrs i n acc = .ok r →
+    r.inputs = acc.inputs ∧ r.pending = acc.pending
+  | [], _, _, acc, r, _, h => by simp only [sepFrom, Except.ok.injEq] at h; rw [← h]; exact ⟨rfl, rfl⟩
   | .input v q :: rest, _, _, _, _, hp, _ => by
     have := hp (.input v q) List.mem_cons_self
     simp [Param.isInput] at this
@@ -17,56 +51,163 @@ theorem sepFrom_attrs : ∀ (attrs : List Param) (i n : Nat) (acc r : Sep),
     simp only [sepFrom] at h
     by_cases h1 : i < n
     · simp only [h1, if_true] at h
-      exact sepFrom_attrs rest (i + 1) n { acc with attrs := acc.attrs ++ [(i, i)] } r hr h
+      exact sepFrom_attrs kws rest (i + 1) n { acc with attrs := acc.attrs ++ [(i, .pos i)] } r hr h
     · simp only [h1, if_false] at h
-      cases dflt with
-      | true => exact sepFrom_attrs rest (i + 1) n _ r hr (by simpa using h)
+      cases h2 : kws.contains i with
+      | true =>
+        simp only [h2, if_true] at h
+        exact sepFrom_attrs kws rest (i + 1) n { acc with attrs := acc.attrs ++ [(i, .kw i)] } r hr h
       | false =>
-        cases req with
-        | true => simp at h
-        | false => exact sepFrom_attrs rest (i + 1) n _ r hr (by simpa using h)
+        simp only [h2, Bool.false_eq_true, if_false] at h
+        cases dflt with
+        | true => exact sepFrom_attrs kws rest (i + 1) n acc r hr (by simpa using h)
+        | false =>
+          cases req with
+          | true => simp at h
+          | false => exact sepFrom_attrs kws rest (i + 1) n acc r hr (by simpa using h)
 
-theorem range_map_add (i m : Nat) : (List.range m).map (· + i) = List.range' i m := by
-  rw [List.range'_eq_map_range]
-  apply List.map_congr_left
-  intro a _
-  exact Nat.add_comm a i
-
-theorem sepFrom_prefix : ∀ (ins : List Param) (attrs : List Param) (i n : Nat) (acc r : Sep),
-    (∀ p ∈ ins, p.isInput = true) → (∀ p ∈ attrs, p.isInput = false) →
-    sepFrom (ins ++ attrs) i n acc = .ok r →
-    ∃ m, m ≤ n - i ∧ r.inputs = acc.inputs ++ List.range' i m
-  | [], attrs, i, n, acc, r, _, ha, h => by
-    refine ⟨0, Nat.zero_le _, ?_⟩
-    simp only [List.nil_append] at h
-    simp [sepFrom_attrs attrs i n acc r ha h]
-  | .attr q d :: rest, _, _, _, _, _, hi, _, _ => by
+/-- Non-variadic inputs: one slot per parameter, in parameter order. -/
+theorem sepFrom_plain (kws : List Nat) : ∀ (ins : List Param) (rest : List Param) (i n : Nat) (acc r : Sep),
+    (∀ p ∈ ins, p.isPlainInput = true) → acc.pending = trail acc.inputs →
+    sepFrom kws (ins ++ rest) i n acc = .ok r →
+    ∃ acc', sepFrom kws rest (i + ins.length) n acc' = .ok r ∧
+      acc'.inputs = acc.inputs ++ (List.range' i ins.length).map (slot n kws) ∧ acc'.pending = trail acc'.inputs
+  | [], rest, i, n, acc, r, _, hp, h => ⟨acc, by simpa using h, by simp, hp⟩
+  | .attr q d :: _, _, _, _, _, _, hi, _, _ => by
     have := hi (.attr q d) List.mem_cons_self
-    simp [Param.isInput] at this
-  | .input true req :: rest, attrs, i, n, acc, r, hi, ha, h => by
-    have hr : ∀ p ∈ rest, p.isInput = true := fun p hp' => hi p (List.mem_cons_of_mem _ hp')
+    simp [Param.isPlainInput] at this
+  | .input true q :: _, _, _, _, _, _, hi, _, _ => by
+    have := hi (.input true q) List.mem_cons_self
+    simp [Param.isPlainInput] at this
+  | .input false req :: ins, rest, i, n, acc, r, hi, hp, h => by
+    have hr : ∀ p ∈ ins, p.isPlainInput = true := fun p hp' => hi p (List.mem_cons_of_mem _ hp')
     simp only [List.cons_append, sepFrom] at h
-    obtain ⟨m, hm, hin⟩ := sepFrom_prefix rest attrs (i + 1) 0 _ r hr ha h
-    have : m = 0 := by omega
-    subst this
-    refine ⟨n - i, Nat.le_refl _, ?_⟩
-    simp only [hin, range_map_add, List.range'_zero, List.append_nil]
-  | .input false req :: rest, attrs, i, n, acc, r, hi, ha, h => by
-    have hr : ∀ p ∈ rest, p.isInput = true := fun p hp' => hi p (List.mem_cons_of_mem _ hp')
-    simp only [List.cons_append, sepFrom] at h
+    have step : ∀ (acc1 : Sep), acc1.inputs = acc.inputs ++ [slot n kws i] → acc1.pending = trail acc1.inputs →
+        sepFrom kws (ins ++ rest) (i + 1) n acc1 = .ok r →
+        ∃ acc', sepFrom kws rest (i + (ins.length + 1)) n acc' = .ok r ∧
+          acc'.inputs = acc.inputs ++ (List.range' i (ins.length + 1)).map (slot n kws) ∧ acc'.pending = trail acc'.inputs := by
+      intro acc1 h1 h2 h3
+      obtain ⟨acc', ha, hb, hc⟩ := sepFrom_plain kws ins rest (i + 1) n acc1 r hr h2 h3
+      refine ⟨acc', by rw [← ha]; congr 1; omega, ?_, hc⟩
+      rw [hb, h1, List.range'_succ, List.map_cons, List.append_assoc, List.singleton_append]
     by_cases h1 : i < n
     · simp only [h1, if_true] at h
-      obtain ⟨m, hm, hin⟩ := sepFrom_prefix rest attrs (i + 1) n _ r hr ha h
-      refine ⟨m + 1, by omega, ?_⟩
-      simp only [hin, List.append_assoc, List.singleton_append]
-      rw [List.range'_succ]
+      exact step { acc with inputs := acc.inputs ++ [some (.pos i)], pending := 0 }
+        (by simp only [slot, h1, if_true]) (by simp only [trail_append_some]) h
     · simp only [h1, if_false] at h
-      cases req with
-      | true => simp at h
+      cases h2 : kws.contains i with
+      | true =>
+        simp only [h2, if_true] at h
+        exact step { acc with inputs := acc.inputs ++ [some (.kw i)], pending := 0 }
+          (by simp only [slot, h1, h2, if_false, if_true]) (by simp only [trail_append_some]) h
       | false =>
-        obtain ⟨m, hm, hin⟩ := sepFrom_prefix rest attrs (i + 1) n _ r hr ha (by simpa using h)
-        have : m = 0 := by omega
-        subst this
-        exact ⟨0, Nat.zero_le _, by simpa using hin⟩
+        simp only [h2, Bool.false_eq_true, if_false] at h
+        cases req with
+        | true => simp at h
+        | false =>
+          simp only [Bool.false_eq_true, if_false] at h
+          exact step { acc with inputs := acc.inputs ++ [none], pending := acc.pending + 1 }
+            (by simp only [slot, h1, h2, Bool.false_eq_true, if_false]) (by simp only [trail_append_none, hp]) h
+
+theorem trail_nil : trail [] = 0 := rfl
+
+theorem separate_plain (ins attrs : List Param) (hi : ∀ p ∈ ins, p.isPlainInput = true)
+    (ha : ∀ p ∈ attrs, p.isInput = false) (n : Nat) (kws : List Nat) (ae : Bool)
+    (inp : List (Option Src)) (at' : List (Nat × Src))
+    (h : separate (ins ++ attrs) n kws ae = .ok (inp, at')) :
+    inp = trimNone ((List.range ins.length).map (slot n kws)) := by
+  unfold separate at h
+  cases hs : sepFrom kws (ins ++ attrs) 0 n ⟨[], [], 0⟩ with
+  | error e => rw [hs] at h; cases h
+  | ok r =>
+    rw [hs] at h
+    obtain ⟨acc', h1, h2, h3⟩ := sepFrom_plain kws ins attrs 0 n ⟨[], [], 0⟩ r hi rfl hs
+    obtain ⟨h4, h5⟩ := sepFrom_attrs kws attrs _ n acc' r ha h1
+    simp only [] at h
+    by_cases hc : (!ae && !hasVariadic (ins ++ attrs) && decide ((ins ++ attrs).length < n)) = true
+    · rw [if_pos hc] at h; cases h
+    · rw [if_neg hc] at h
+      simp only [Except.ok.injEq, Prod.mk.injEq] at h
+      rw [← h.1, h4, h5, h3, h2]
+      simp [trimNone, List.range_eq_range']
+
+theorem separate_variadic_last (ins attrs : List Param) (q : Bool) (hi : ∀ p ∈ ins, p.isPlainInput = true)
+    (ha : ∀ p ∈ attrs, p.isInput = false) (n : Nat) (kws : List Nat) (ae : Bool)
+    (inp : List (Option Src)) (at' : List (Nat × Src))
+    (h : separate (ins ++ (.input true q :: attrs)) n kws ae = .ok (inp, at')) :
+    inp = trimNone ((List.range ins.length).map (slot n kws) ++
+      (List.range' ins.length (n - ins.length)).map (fun j => some (.pos j))) := by
+  unfold separate at h
+  cases hs : sepFrom kws (ins ++ (.input true q :: attrs)) 0 n ⟨[], [], 0⟩ with
+  | error e => rw [hs] at h; cases h
+  | ok r =>
+    rw [hs] at h
+    obtain ⟨acc', h1, h2, h3⟩ := sepFrom_plain kws ins (.input true q :: attrs) 0 n ⟨[], [], 0⟩ r hi rfl hs
+    simp only [sepFrom, Nat.zero_add] at h1
+    obtain ⟨h4, h5⟩ := sepFrom_attrs kws attrs _ 0 _ r ha h1
+    have hmap : (List.range (n - ins.length)).map (fun k => some (Src.pos (k + ins.length)))
+        = (List.range' ins.length (n - ins.length)).map (fun j => some (Src.pos j)) := by
+      rw [List.range'_eq_map_range, List.map_map]
+      apply List.map_congr_left
+      intro a _
+      simp [Nat.add_comm]
+    simp only [] at h
+    by_cases hc : (!ae && !hasVariadic (ins ++ (.input true q :: attrs)) && decide ((ins ++ (.input true q :: attrs)).length < n)) = true
+    · rw [if_pos hc] at h; cases h
+    · rw [if_neg hc] at h
+      simp only [Except.ok.injEq, Prod.mk.injEq] at h
+      rw [← h.1, h4, h5]
+      have hX : acc'.inputs ++ (List.range (n - ins.length)).map (fun k => some (Src.pos (k + ins.length)))
+          = (List.range ins.length).map (slot n kws) ++
+            (List.range' ins.length (n - ins.length)).map (fun j => some (Src.pos j)) := by
+        rw [hmap, h2]; simp [List.range_eq_range']
+      have hP : (if n - ins.length = 0 then acc'.pending else 0)
+          = trail (acc'.inputs ++ (List.range (n - ins.length)).map (fun k => some (Src.pos (k + ins.length)))) := by
+        by_cases hz : n - ins.length = 0
+        · simp only [hz, if_true, List.range_zero, List.map_nil, List.append_nil]; exact h3
+        · simp only [hz, if_false]
+          have hne : List.range (n - ins.length) ≠ [] := by
+            intro he
+            have := congrArg List.length he
+            simp at this
+            exact hz this
+          exact (trail_append_somes _ (fun k => Src.pos (k + ins.length)) _ hne).symm
+      simp only [hP, hX, trimNone]
+
+
+/-! positional calls (no keywords) -/
+
+theorem slots_nokw (n : Nat) : ∀ k, (List.range k).map (slot n []) =
+    (List.range (min n k)).map (fun j => some (Src.pos j)) ++ List.replicate (k - min n k) none
+  | 0 => by simp
+  | k + 1 => by
+    rw [List.range_succ, List.map_append, slots_nokw n k]
+    by_cases h : k < n
+    · have e1 : min n (k + 1) = k + 1 := by omega
+      have e2 : min n k = k := by omega
+      simp only [e1, e2, Nat.sub_self, List.replicate_zero, List.append_nil, List.map_cons, List.map_nil, slot, h, if_true]
+      rw [List.range_succ, List.map_append]; rfl
+    · have e1 : min n (k + 1) = n := by omega
+      have e2 : min n k = n := by omega
+      have e3 : k + 1 - n = (k - n) + 1 := by omega
+      simp only [e1, e2, e3, List.map_cons, List.map_nil, slot, h, if_false, List.contains_nil, Bool.false_eq_true]
+      rw [List.append_assoc, List.replicate_succ']
+
+theorem trail_somes_replicate (f : Nat → Src) (xs : List Nat) : ∀ p,
+    trail (xs.map (fun k => some (f k)) ++ List.replicate p none) = p
+  | 0 => by
+    simp only [List.replicate_zero, List.append_nil]
+    cases xs with
+    | nil => rfl
+    | cons x rest => simpa using trail_append_somes [] f (x :: rest) (by simp)
+  | p + 1 => by
+    rw [List.replicate_succ', ← List.append_assoc, trail_append_none, trail_somes_replicate f xs p]
+
+theorem trimNone_somes_replicate (f : Nat → Src) (xs : List Nat) (p : Nat) :
+    trimNone (xs.map (fun k => some (f k)) ++ List.replicate p none) = xs.map (fun k => some (f k)) := by
+  unfold trimNone
+  rw [trail_somes_replicate]
+  simp
+
 
 end OV.Call
